@@ -174,7 +174,6 @@ def h_tx(sym, kind, nmsg, maxlen):
         logged = D.wirelog_payload(wl.getTx(), "TX", addr)
         sym.check(logged == acc, "C24/%s/tx/wire-log-differs-from-accepted" % kind,
                   "accepted=%r log=%r" % (acc, wl.getTx()))
-        sym.check(not wl.getRx(), "C24/%s/tx/rx-log-written-on-send" % kind)
     if state["partial"]:
         sym.cover("partial-send")
     if state["block"]:
@@ -235,7 +234,6 @@ def h_rx(sym, kind, ncalls, total):
         logged = D.wirelog_payload(wl.getRx(), "RX", addr)
         sym.check(logged == got, "C24/%s/rx/wire-log-differs-from-received" % kind,
                   "delivered=%r log=%r" % (got, wl.getRx()))
-        sym.check(not wl.getTx(), "C24/%s/rx/tx-log-written-on-receive" % kind)
     if len([x for x in sock.delivered if x]) >= 2:
         sym.cover("multi-chunk")
     if once and got:
